@@ -257,7 +257,7 @@ func init() {
 	register(&Plan{
 		Prop:  "C12",
 		Level: "exploration",
-		Rule: "matrix: the complete product {7 entry-point families that can carry the severity: verb, Context verb, LogAttrs, Logit, Log(log/slog level), package verb, package Context verb} x {Panic, Fatal} x {no-interrupt flag} x {interrupt-always flag} x {production, under-go-test process} x {admitted, denied by an Off logger, denied by the level threshold (a Panic-level logger and a Fatal record)} x {json, logfmt, color} x {root, child | default} = 1440 cells (package functions only exist for the default logger), plus 192 cells with a 1100-item argument list, 240 cells in a production process that carries an argument starting with -bench and 384 cells in which the two flags got their values through another idiom (SetFlags; a SaveFlagsAndMod window that is still open; the opposite values inside a SaveFlagsAndMod window whose restore closure has run), 192 cells whose destination stores the record and then reports an error 192 cells with registered context keys and a nil context, and 320 cells in which the package level was set to Off before the logger became the default one (package entry points), os.Args is rewritten at run time (go test processes) or a per-level writer for the severity was added and removed again, and 288 cells whose message ends in line breaks (Panic: the panic value is the message, byte for byte) or that follow an earlier Panic of the same logger which the application recovered from, and 192 colored cells in which the application took the colours of the severity away (SetLevelColors(severity, NoColor, NoColor)), 96 colored Panic cells whose message holds markup (the panic value is the message as passed) and 192 cells in which another record of the same logger sits inside a destination that never returns while the call is made, and 384 cells whose error device leads elsewhere: to a log file made by NewFileWriter (the record is in the file when the process is gone), to two destinations of which the first reports an error for every write (the record reaches the second), to io.Discard, or nowhere because the only destination was removed again (the termination rule is the same), and 384 colored cells in which the first of two error destinations takes nothing without reporting an error or unregisters itself from inside its failing Write (the record reaches the destination behind it), or in which the caller flag and the package-name flag are set while the call site lies in package main, 384 cells in which the logger was Closed before the call or was handed a nil writer after the real ones (both leave its destinations as they were), and 80 package-level cells whose default logger is a child at the cell's level under a root at the opposite level, and 576 cells whose logger is a child of a logger made with a log/slog handler argument, whose call carries two application-defined attributes that cannot be compared with ==, or whose logger has context keys while the context is cancelled, and 576 colored cells whose destination reported a wrapped os.ErrClosed for one earlier record, whose message begins with a line break, or whose logger ends a chain root (attribute) -> bare logger -> logger (attribute) with the inherit flag on (the record carries both attributes), and 192 colored cells whose message has a second line of 64 KiB or more (the record is complete, the panic value is the whole message), and (round 16) 192 colored cells with that message and the caller flag removed and 240 cells in which a known-path mapping names the very source file of the call site = 6736 cells; " +
+		Rule: "matrix: the complete product {7 entry-point families that can carry the severity: verb, Context verb, LogAttrs, Logit, Log(log/slog level), package verb, package Context verb} x {Panic, Fatal} x {no-interrupt flag} x {interrupt-always flag} x {production, under-go-test process} x {admitted, denied by an Off logger, denied by the level threshold (a Panic-level logger and a Fatal record)} x {json, logfmt, color} x {root, child | default} = 1440 cells (package functions only exist for the default logger), plus 192 cells with a 1100-item argument list, 240 cells in a production process that carries an argument starting with -bench and 384 cells in which the two flags got their values through another idiom (SetFlags; a SaveFlagsAndMod window that is still open; the opposite values inside a SaveFlagsAndMod window whose restore closure has run), 192 cells whose destination stores the record and then reports an error 192 cells with registered context keys and a nil context, and 320 cells in which the package level was set to Off before the logger became the default one (package entry points), os.Args is rewritten at run time (go test processes) or a per-level writer for the severity was added and removed again, and 288 cells whose message ends in line breaks (Panic: the panic value is the message, byte for byte) or that follow an earlier Panic of the same logger which the application recovered from, and 192 colored cells in which the application took the colours of the severity away (SetLevelColors(severity, NoColor, NoColor)), 96 colored Panic cells whose message holds markup (the panic value is the message as passed) and 192 cells in which another record of the same logger sits inside a destination that never returns while the call is made, and 384 cells whose error device leads elsewhere: to a log file made by NewFileWriter (the record is in the file when the process is gone), to two destinations of which the first reports an error for every write (the record reaches the second), to io.Discard, or nowhere because the only destination was removed again (the termination rule is the same), and 384 colored cells in which the first of two error destinations takes nothing without reporting an error or unregisters itself from inside its failing Write (the record reaches the destination behind it), or in which the caller flag and the package-name flag are set while the call site lies in package main, 384 cells in which the logger was Closed before the call or was handed a nil writer after the real ones (both leave its destinations as they were), and 80 package-level cells whose default logger is a child at the cell's level under a root at the opposite level, and 576 cells whose logger is a child of a logger made with a log/slog handler argument, whose call carries two application-defined attributes that cannot be compared with ==, or whose logger has context keys while the context is cancelled, and 576 colored cells whose destination reported a wrapped os.ErrClosed for one earlier record, whose message begins with a line break, or whose logger ends a chain root (attribute) -> bare logger -> logger (attribute) with the inherit flag on (the record carries both attributes), and 192 colored cells whose message has a second line of 64 KiB or more (the record is complete, the panic value is the whole message), and (round 16) 192 colored cells with that message and the caller flag removed and 288 cells in which a known-path mapping names the very source file of the call site = 6784 cells; " +
 			"each cell is ONE child process built from the tree performing ONE call with an unbuffered file as destination; the parent observes exit status, the recovered panic value and the file. thorough = all cells, quick = every 8th cell of the base matrix starting at VERIF_SEED mod 8 (all 8 quick seeds together cover it) and every 2nd of the extra cells. " +
 			"negative: 8 probe processes (mode x flags) issue every other severity through every entry point, in every format and in colour after all level colours were taken away, plus two severities registered as treated-as Fatal / Panic and Log with 17 log/slog level values that are not named constants (~2000 calls each) and must survive. non-trivial = every judged cell; distinct = by cell",
 		Assumptions: []string{"a record present in the unbuffered file was written before the process terminated", "a 60 s watchdog per probe process; a timeout is inconclusive"},
@@ -266,13 +266,13 @@ func init() {
 		Jobs: func(tier string, seed int64) []Job {
 			var js []Job
 			if tier == "thorough" {
-				js = chunk("matrix", "prod", 6736, 421, Job{Timeout: 30 * time.Minute})
+				js = chunk("matrix", "prod", 6784, 424, Job{Timeout: 30 * time.Minute})
 			} else {
 				off := int(((seed % 8) + 8) % 8)
 				for i := off; i < 1440; i += 8 {
 					js = append(js, Job{Sub: "matrix", Mode: "prod", From: i, To: i + 1, Timeout: 10 * time.Minute})
 				}
-				for i := 1440 + off%2; i < 6736; i += 2 { // the extra cells (huge argument lists, -bench argument) are sampled more densely
+				for i := 1440 + off%2; i < 6784; i += 2 { // the extra cells (huge argument lists, -bench argument) are sampled more densely
 					js = append(js, Job{Sub: "matrix", Mode: "prod", From: i, To: i + 1, Timeout: 10 * time.Minute})
 				}
 				// group them: one job per 16 cells
